@@ -329,6 +329,12 @@ def _compute_targets(processed_results, targets, model_functions, params):
         p for p in list(inspect.signature(target_func).parameters) if p != "params"
     ]
 
+    if not variables:
+        # Targets that depend on parameters only are constant across all rows.
+        n_rows = len(processed_results["value"])
+        constant_targets = target_func(params=params)
+        return {k: jnp.full(n_rows, v) for k, v in constant_targets.items()}
+
     target_func = vmap_1d(target_func, variables=variables)
 
     kwargs = {k: v for k, v in processed_results.items() if k in variables}
